@@ -553,6 +553,43 @@ def run_notified(run, cfg, G):
                        "non-trivial = items delivered / pending polls; distinct = distinct case lines")
 
 
+# ------------------------------------------------------------------------------------ unix (C19)
+
+def unix_nontrivial(inp, impl):
+    ks = []
+    if " xfer " in inp:
+        ks.append("transfer")
+        sizes = [int(x) for x in inp.split(" slow=")[0].replace(" A ", " ").replace(" B ", " ").split()[3:] if x.isdigit()]
+        if any(x >= 200000 for x in sizes):
+            ks.append("larger-than-socket-buffer")
+        if " B " in inp and inp.split(" B ")[1].split(" slow=")[0].strip():
+            ks.append("both-directions")
+        if "slow=1" in inp or "slow=2" in inp:
+            ks.append("slow-reader")
+    if " listen " in inp:
+        ks.append("listener")
+        if " fd " in inp:
+            ks.append("inherited-fd")
+    if " cancel " in inp:
+        ks.append("cancelled-send")
+    return ks
+
+
+def unix_known_key(line):
+    if line.startswith("unix cancel"):
+        return "cancelled-partial-send"
+    return None
+
+
+def run_unix(run, cfg, G):
+    diff_run(run, G, ["unix"], "unix", unix_nontrivial, "unix", known_key=unix_known_key)
+    finish_corr(run, G, [])
+    run.cov["rule"] = ("real Unix-domain sockets, both runtime crates (production build, no cfg hook): connected zlink connections exchanging 1..10 messages per direction with sizes 1 B..1 MiB (incl. > 200 KiB, i.e. larger than the kernel socket buffer, "
+                       "forcing partial writes), both directions at once, reader slower or faster than the writer; bound listeners and listeners built from an inherited descriptor accepting 1, 3, 8 connections with ids collected; "
+                       "a send cancelled by a timeout while the peer is not reading followed by a small message (peer's raw frames classified); oracle: received = sent, ids distinct, all served, only whole sent frames each at most once; "
+                       "non-trivial = any transfer / listener / cancellation case; distinct = distinct case lines")
+
+
 RX_ASSUME = [
     "which bytes are a JSON document of the requested shape is serde_json/serde's business: the model takes `decode this frame` as an opaque per-frame function (theorems hold for every such function); the harness instantiates it with the verdict of a fresh connection receiving that frame alone and cross-checks call receivers against serde_json::from_slice",
     "the ReadHalf contract: a read future that is dropped while pending has consumed nothing",
@@ -630,6 +667,16 @@ PROPS = {
             "core::fmt (write!/writeln!) concatenates as modelled in Zlink/Model/IdlRender.lean (validated: byte-identical text on every explored tree)",
             "PARTIAL: proved are the comment round trip and the counterexample of the known finding; parse(render t) = t for whole descriptions is checked per explored tree (model and implementation both), C14_statement is kept as the full statement",
             "the GetInterfaceDescription exchange end to end (serialize as string, deserialize, parse) is not yet part of this check",
+        ],
+    },
+    "C19": {
+        "property_modules": ["Zlink.Properties.C19"], "lean_modules": ["Zlink.Properties.C19"],
+        "theorems": ["C19.writeAll_flatten", "C19.C19_e2e", "C19.C19_ids_distinct", "C19.C19_cancel_counterexample", "C19.C19_cancel_partial"],
+        "run": run_unix, "package": "zvrt", "trusted_base": TB_COMMON,
+        "assumptions": [
+            "PARTIAL: the kernel's Unix socket is modelled as a byte FIFO accepting any non-empty prefix of a write; kernel buffer sizes, descriptor inheritance and the tokio / smol schedulers are runtime facts exercised by the correspondence run on real sockets only",
+            "the model side of the `unix` scenario is the closed form of C19_e2e (received = sent; expected hashes are a function of size and index computed without looking at the transfer), not an execution of the byte-level model on megabyte messages",
+            "timing: the cancellation case uses a 30 ms timeout with a peer that does not read; a 1 MiB / 400 kB message cannot be written completely into a socket buffer, so the send is always pending when abandoned",
         ],
     },
     "C20": {
